@@ -129,6 +129,8 @@ class Filter(object):
         """
         if force is None:
             force = []
+        # features known during the previous update
+        features_old = list(getattr(self, "features", []))
         # re-initialize important parameters
         self._init_rtdc_ds(rtdc_ds)
 
@@ -165,6 +167,14 @@ class Filter(object):
             if (dfn.scalar_feature_exists(k[:-4])
                     and (k.endswith(" min") or k.endswith(" max"))):
                 feat2filter.append(k[:-4])
+
+        for feat in self.features:
+            # Features that have become available since the last update
+            # (e.g. temporary features) have not been filtered yet,
+            # although their min/max values may be set already.
+            if (feat not in features_old
+                    and (feat + " min" in cfg_cur or feat + " max" in cfg_cur)):
+                feat2filter.append(feat)
 
         for f in force:
             # add forced features
